@@ -1481,6 +1481,32 @@ theorem lazySource_yields_stream_in_order (l : LSrc) (n : Nat) :
     | pending => simp only [hres] at h1; simp only [sresItems]; rw [← h1, ← hr]; simp
     | ended => simp only [hres] at h1; simp only [sresItems]; rw [← h1, ← hr]; simp
 
+def lsrcUninit : LSrc → Bool
+  | .uninit _ _ => true
+  | _ => false
+
+/-- the state after `n` polls -/
+def lsrcAfter : LSrc → Nat → LSrc
+  | l, 0 => l
+  | l, n + 1 => lsrcAfter (lazySourceNext l).1 n
+
+/-- **`LazySource` is initialised at most once**: the init closure runs exactly in the transition
+out of `Uninit` (`func.take().unwrap()`); the first poll leaves `Uninit` and no later poll returns to
+it — whatever the init future and the stream answer. -/
+theorem lazySource_init_once (l : LSrc) (n : Nat) : lsrcUninit (lsrcAfter l (n + 1)) = false := by
+  have h1 : ∀ l : LSrc, lsrcUninit (lazySourceNext l).1 = false := by
+    intro l
+    cases l with
+    | uninit fut s => simp only [lazySourceNext]; split <;> rfl
+    | thunk fut s => simp only [lazySourceNext]; split <;> rfl
+    | done s => rfl
+  have h2 : ∀ (m : Nat) (l : LSrc), lsrcUninit l = false → lsrcUninit (lsrcAfter l m) = false := by
+    intro m
+    induction m with
+    | zero => intro l h; exact h
+    | succ m ih => intro l _; exact ih _ (h1 l)
+  exact h2 n _ (h1 l)
+
 /-! ### `LazySinkSource`: both halves, arbitrarily interleaved -/
 
 /-- a call on either half -/
